@@ -3,7 +3,7 @@
     generated `impl ParseableA2lObject for X` bodies; A2ml::parse, IfData::parse (with the
     uninterpreted fallback of ifdata.rs) and parse_file / parse_version of parser.rs follow. *)
 From Coq Require Import Ascii String List Bool NArith ZArith.
-From A2L Require Import Text.Escape Text.IntText Lex.Tokenizer Gram.Spec Gram.PState.
+From A2L Require Import Text.Escape Text.IntText Lex.Tokenizer Gram.Spec A2ml.Types Gram.PState.
 Import ListNotations.
 Local Open Scope N_scope.
 
@@ -35,6 +35,12 @@ Inductive value :=
 | VIfData (lay : layout) (items : option gifd) (valid : bool).
 
 Definition bytes_of (s : string) : bytes := list_ascii_of_string s.
+
+Fixpoint a2ml_lookup (txt : bytes) (tab : list (bytes * (option a2mlty * bytes))) : option (option a2mlty * bytes) :=
+  match tab with
+  | [] => None
+  | (k, v) :: r => if bytes_eqb k txt then Some v else a2ml_lookup txt r
+  end.
 
 (* ---------- enumerations ---------- *)
 Fixpoint find_enumitem (items : list enumitem) (txt : bytes) : option enumitem :=
@@ -103,8 +109,15 @@ Section Unknown.
                          | (Some (v, hex), _) => off <-- get_line_offset ;; loop n' (items ++ [GInt "Long" off v hex])
                          | _ =>
                              undo_get_token ;;;
-                             fl <-- get_float c ;; off <-- get_line_offset ;;
-                             loop n' (items ++ [GFloat off fl])
+                             rf <-- try (get_float c) ;;
+                             match rf with
+                             | (Some fl, _) => off <-- get_line_offset ;; loop n' (items ++ [GFloat off fl])
+                             | _ =>
+                                 (* too large for an f32: kept as a double *)
+                                 undo_get_token ;;;
+                                 db <-- get_double c ;; off <-- get_line_offset ;;
+                                 loop n' (items ++ [GDouble off db])
+                             end
                          end
                      | TBegin =>
                          if is_block then
@@ -188,15 +201,210 @@ Section Unknown.
     end.
 End Unknown.
 
-(* ifdata.rs parse_ifdata with no A2ML specification available (a2mlspec empty) *)
-Definition parse_ifdata_nospec (fuel : nat) (c : ctx) : M (option gifd * bool) :=
+(* ---------- ifdata.rs: the type-directed IF_DATA parser (parse_ifdata, parse_ifdata_from_spec, parse_ifdata_item,
+   parse_ifdata_taggedstruct, parse_ifdata_taggeditem, parse_ifdata_make_block) ----------
+   Recursion follows the type specification ([fuel] bounds its depth); the while-loops of Sequence and TaggedStruct are
+   bounded by the number of remaining tokens plus two. *)
+Fixpoint find_tagged (items : list tagged) (tag : bytes) : option tagged :=
+  match items with
+  | [] => None
+  | t :: r => if bytes_eqb (tg_tag t) tag then Some t else find_tagged r tag
+  end.
+Fixpoint enum_has (items : list (bytes * option Z)) (x : bytes) : bool :=
+  match items with
+  | [] => false
+  | (k, _) :: r => bytes_eqb k x || enum_has r x
+  end.
+
+Definition make_block (data : gifd) (incfile : option nat) (line : N) : gifd :=
+  match data with
+  | GStruct _ _ items => GBlock incfile line items
+  | _ => GBlock incfile line [data]
+  end.
+
+Definition int_item (variant : string) (t : ity) (c : ctx) : M gifd :=
+  r <-- get_integer t c ;; off <-- get_line_offset ;; ret (GInt variant off (fst r) (snd r)).
+
+Section Item.
+  Variable rec : a2mlty -> ctx -> M gifd.       (* parse_ifdata_item one level down *)
+
+  (* for _ in 0..dim { arrayitems.push(parse_ifdata_item(..)?) } *)
+  Fixpoint array_items (n : nat) (ty : a2mlty) (c : ctx) : M (list gifd) :=
+    match n with
+    | O => ret []
+    | S n' => x <-- rec ty c ;; r <-- array_items n' ty c ;; ret (x :: r)
+    end.
+  Fixpoint struct_items (tys : list a2mlty) (c : ctx) : M (list gifd) :=
+    match tys with
+    | [] => ret []
+    | ty :: r => x <-- rec ty c ;; xs <-- struct_items r c ;; ret (x :: xs)
+    end.
+  (* while let Ok(item) = parse_ifdata_item(..) { push; checkpoint } set_tokenpos(checkpoint) *)
+  Fixpoint seq_items (n : nat) (ty : a2mlty) (c : ctx) (acc : list gifd) : M (list gifd) :=
+    match n with
+    | O => out_of_fuel
+    | S n' =>
+        checkpoint <-- get_tokenpos ;;
+        r <-- try (rec ty c) ;;
+        match r with
+        | (Some item, _) =>
+            pos <-- get_tokenpos ;;
+            (* an item that matched without consuming anything ends the sequence *)
+            if Nat.eqb pos checkpoint then set_tokenpos checkpoint ;;; ret acc
+            else seq_items n' ty c (acc ++ [item])
+        | _ => set_tokenpos checkpoint ;;; ret acc
+        end
+    end.
+
+  (* parse_ifdata_taggeditem *)
+  Definition tagged_item (spec : list tagged) (c : ctx) : M (option gtitem) :=
+    checkpoint <-- get_tokenpos ;;
+    n0 <-- remaining ;;
+    skip_comments (S n0) c ;;;
+    r <-- try (get_next_tag_or_comment c) ;;
+    match r with
+    | (Some (BCBlock token is_block start_offset), _) =>
+        let tag := tk_text token in
+        match find_tagged spec tag with
+        | Some ts =>
+            if negb (Bool.eqb (tg_block ts) is_block) then set_tokenpos checkpoint ;;; ret None
+            else
+              uid <-- get_next_id ;;
+              let newc := ctx_from_token tag token in
+              data <-- rec (tg_item ts) newc ;;
+              inc0 <-- get_incfilename (c_fileid newc) ;;
+              let parsed := make_block data inc0 (c_line newc) in
+              end_offset <--
+                (if is_block then
+                   expect_token newc TEnd ;;;
+                   eo <-- get_line_offset ;;
+                   endident <-- expect_token newc TIdentifier ;;
+                   if bytes_eqb (tk_text endident) tag then ret eo
+                   else (d <-- mk_diag "IncorrectEndTag" newc (tk_text endident) ;; fail d)
+                 else ret 0) ;;
+              inc <-- get_incfilename (c_fileid newc) ;;
+              ret (Some (GTI inc (c_line newc) uid start_offset end_offset tag parsed is_block))
+        | None => set_tokenpos checkpoint ;;; ret None
+        end
+    | _ => set_tokenpos checkpoint ;;; ret None
+    end.
+
+  (* parse_ifdata_taggedstruct: while let Some(item) = parse_ifdata_taggeditem(..)? *)
+  Fixpoint taggedstruct_items (n : nat) (spec : list tagged) (c : ctx) (acc : list (bytes * list gtitem))
+    : M (list (bytes * list gtitem)) :=
+    match n with
+    | O => out_of_fuel
+    | S n' =>
+        r <-- tagged_item spec c ;;
+        match r with
+        | Some (GTI inc line uid so eo tag data isb) =>
+            taggedstruct_items n' spec c (assoc_push tag (GTI inc line uid so eo tag data isb) acc)
+        | None => ret acc
+        end
+    end.
+
+  Definition item_step (ty : a2mlty) (c : ctx) : M gifd :=
+    match ty with
+    | TNone => ret GNone
+    | TChar => int_item "Char" I8 c
+    | TInt => int_item "Int" I16 c
+    | TLong => int_item "Long" I32 c
+    | TInt64 => int_item "Int64" I64 c
+    | TUChar => int_item "UChar" U8 c
+    | TUInt => int_item "UInt" U16 c
+    | TULong => int_item "ULong" U32 c
+    | TUInt64 => int_item "UInt64" U64 c
+    | TFloat => v <-- get_float c ;; off <-- get_line_offset ;; ret (GFloat off v)
+    | TDouble => v <-- get_double c ;; off <-- get_line_offset ;; ret (GDouble off v)
+    | TArray TChar dim => s <-- get_string_maxlen c dim ;; off <-- get_line_offset ;; ret (GString off s)
+    | TArray item dim => l <-- array_items dim item c ;; ret (GArray l)
+    | TEnum items =>
+        e <-- get_identifier c ;;
+        off <-- get_line_offset ;;
+        if enum_has items e then ret (GEnumItem off e)
+        else (d <-- mk_diag "InvalidEnumValue" c e ;; fail d)
+    | TStruct items =>
+        l <-- struct_items items c ;;
+        inc <-- get_incfilename (c_fileid c) ;;
+        ret (GStruct inc 0 l)
+    | TSequence item =>
+        n <-- remaining ;;
+        l <-- seq_items (S (S n)) item c [] ;;
+        ret (GSequence l)
+    | TTaggedStruct spec =>
+        n <-- remaining ;;
+        l <-- taggedstruct_items (S (S n)) spec c [] ;;
+        ret (GTaggedStruct l)
+    | TTaggedUnion spec =>
+        r <-- tagged_item spec c ;;
+        match r with
+        | Some (GTI inc line uid so eo tag data isb) => ret (GTaggedUnion [(tag, [GTI inc line uid so eo tag data isb])])
+        | None => ret (GTaggedUnion [])
+        end
+    end.
+End Item.
+
+Fixpoint parse_ifdata_item (fuel : nat) (ty : a2mlty) (c : ctx) : M gifd :=
+  match fuel with
+  | O => out_of_fuel
+  | S f => item_step (parse_ifdata_item f) ty c
+  end.
+
+(* depth of a type specification: enough fuel for parse_ifdata_item *)
+Fixpoint ty_depth (ty : a2mlty) : nat :=
+  match ty with
+  | TArray i _ => S (ty_depth i)
+  | TSequence i => S (ty_depth i)
+  | TStruct l => S (fold_right (fun t m => Nat.max (ty_depth t) m) 0%nat l)
+  | TTaggedStruct l | TTaggedUnion l =>
+      S (fold_right (fun t m => Nat.max (match t with Tagged _ _ _ i => ty_depth i end) m) 0%nat l)
+  | _ => 1%nat
+  end.
+
+(* parse_ifdata_from_spec *)
+Definition parse_ifdata_from_spec (spec : a2mlty) (c : ctx) : M (option gifd) :=
+  pos <-- get_tokenpos ;;
+  r <-- try (parse_ifdata_item (S (ty_depth spec)) spec c) ;;
+  match r with
+  | (Some g, _) =>
+      (* a comment before the /end is not part of the data *)
+      n0 <-- remaining ;;
+      rc <-- try (skip_comments (S n0) c) ;;
+      pk <-- peek_token ;;
+      match pk with
+      | Some t =>
+          if ttype_eqb (tk_type t) TEnd then
+            inc <-- get_incfilename (c_fileid c) ;;
+            ret (Some (make_block g inc (c_line c)))
+          else set_tokenpos pos ;;; ret None
+      | None => set_tokenpos pos ;;; ret None
+      end
+  | _ => set_tokenpos pos ;;; ret None
+  end.
+
+Fixpoint first_spec (specs : list a2mlty) (c : ctx) : M (option gifd) :=
+  match specs with
+  | [] => ret None
+  | sp :: r =>
+      g <-- parse_ifdata_from_spec sp c ;;
+      match g with Some x => ret (Some x) | None => first_spec r c end
+  end.
+
+(* parse_ifdata: the built-in specification first, then the one of the A2ML block, then the uninterpreted fallback *)
+Definition parse_ifdata (specs : list a2mlty) (fuel : nat) (c : ctx) : M (option gifd * bool) :=
   n0 <-- remaining ;;
-  skip_comments (Datatypes.S n0) c ;;;
+  skip_comments (S n0) c ;;;
   pk <-- peek_token ;;
   match pk with
   | Some t =>
-      if ttype_eqb (tk_type t) TEnd then ret (None, false)
-      else (g <-- unknown_ifdata_start fuel c ;; ret (Some g, false))
+      (* an IF_DATA without content can conform to the definition as well *)
+      r <-- first_spec specs c ;;
+      match r with
+      | Some g => ret (Some g, true)
+      | None =>
+          if ttype_eqb (tk_type t) TEnd then ret (None, false)
+          else (g <-- unknown_ifdata_start fuel c ;; ret (Some g, false))
+      end
   | None => ret (None, false)
   end.
 
@@ -299,14 +507,21 @@ Section Elem.
           uid <-- get_next_id ;;
           token <-- expect_token newc TString ;;
           loc <-- get_line_offset ;;
-          (* a2ml::parse_a2ml on the text: its outcome is handled in A2ml/ (C18); here the text is kept *)
+          (* a2ml::parse_a2ml on the text (oracle: the type specification the library derives from this text) *)
+          (let txt := crlf_to_lf (tk_text token) in
+           fun s => match a2ml_lookup txt (ps_a2ml s) with
+                    | Some (Some ty, _) => push_spec ty s
+                    | Some (None, msg) => bindM (mk_diag "A2mlError" newc msg) error_or_log s
+                    | None => (RPanic "a2ml oracle: text not in the table", s)
+                    end) ;;;
           expect_token newc TEnd ;;;
           end_tag_check newc (bytes_of "A2ML") ;;;
           ret (VNode "A2ml" (mkLay uid (c_line newc) line_offset 1 inc) [VScalar (SText (crlf_to_lf (tk_text token))) loc] [] [])
         else
           inc <-- get_incfilename (c_fileid newc) ;;
           uid <-- get_next_id ;;
-          r <-- parse_ifdata_nospec ifdata_fuel newc ;;
+          specs <-- get_specs ;;
+          r <-- parse_ifdata specs ifdata_fuel newc ;;
           expect_token newc TEnd ;;;
           eo <-- get_line_offset ;;
           end_tag_check newc (bytes_of "IF_DATA") ;;;
